@@ -13,3 +13,4 @@ import GPy.C12.Props
 import GPy.C13.Props
 import GPy.C02.Props
 import GPy.C14.Props
+import GPy.C08.Props
